@@ -73,6 +73,7 @@ func (s *Server) verifDispatch(path string, cmd int, followOn bool, c *Conn, neg
 	rec["authorizer"] = s.Authorizer != nil
 	if c != nil && c.Stream != nil {
 		rec["streamEnc"] = c.Stream.IsEncrypted()
+		rec["st"], rec["sq"] = c.Stream.VerifPos()
 	}
 	if neg != nil {
 		rec["auth"] = neg.Authentication
